@@ -140,6 +140,14 @@ let parse_filter (t : string) : filter_t =
     (fun r -> Some (List.filteri (fun i _ -> i <> k) r))
   | _ -> failwith "filter"
 
+(* the output index is a size_t; the model's nat is unary: any index >= 100000 behaves like 100000 for the records
+   of the check (fewer than 100000 fields), because the index is only compared with record sizes *)
+let nat_of_out (s : string) : nat =
+  let n = if String.length s > 6 then 100000 else min 100000 (int_of_string s) in
+  let rec go k acc = if k = 0 then acc else go (k - 1) (S acc) in
+  go n O
+let uint_max_nat : nat = nat_of_out "4294967295"
+
 let variant_of = function "pinned" -> pinned_v | _ -> fixed_v
 
 (* terminator-style lists: every item is followed by its separator *)
@@ -171,7 +179,7 @@ let () =
                     has_header = (match hdr with "-1" -> GUESS_HEADER | "0" -> NO_HEADER | _ -> HAS_HEADER);
                     quoting = REMOVE_QUOTES } in
           let p = { p_dialect = d; p_filter = parse_filter flt;
-                    p_output_index = (if out = "-1" then None else Some (nat_of_int (int_of_string out))) } in
+                    p_output_index = (if out = "-1" then None else Some (nat_of_out out)) } in
           let r = read_csv o_is_number o_stod o_stoi (variant_of v) (bytes_of_hex text) p in
           print_endline (result_line r (fun df -> "OK ret=" ^ string_of_int (List.length df.dataset) ^ " " ^ show_df df))
         | ["prob"; v; text; strong] ->
@@ -198,6 +206,35 @@ let () =
                                      else Some (List.map (fun t -> List.map bytes_of_hex (items ',' t)) (items ';' (strip2 i)))) } in
           let r = read_xrff o_is_number o_stod o_stoi (variant_of v) dom (parse_filter flt) in
           print_endline (result_line r (fun (df, n) -> "OK ret=" ^ string_of_int (int_of_nat n) ^ " " ^ show_df df))
+        | "hist" :: v :: _k :: steps ->
+          let dom_of a i =
+            let strip2 s = String.sub s 2 (String.length s - 2) in
+            { x_attributes = (if a = "A-" then None else Some (List.map parse_attr (items ';' (strip2 a))));
+              x_instances = (if i = "I-" then None
+                             else Some (List.map (fun t -> List.map bytes_of_hex (items ',' t)) (items ';' (strip2 i)))) } in
+          let rec go df steps acc =
+            match steps with
+            | [] -> "HIST S=" ^ acc ^ " " ^ show_df df
+            | st :: rest ->
+              (match String.split_on_char '/' st with
+               | ["c"; text; delim; hdr; trim; out] ->
+                 let d = { delimiter = z_of_int (int_of_string delim); trim_ws = (trim = "1");
+                           has_header = (match hdr with "-1" -> GUESS_HEADER | "0" -> NO_HEADER | _ -> HAS_HEADER);
+                           quoting = REMOVE_QUOTES } in
+                 let p = { p_dialect = d; p_filter = no_filter;
+                           p_output_index = (if out = "-1" then None else Some (nat_of_out out)) } in
+                 (match read_csv_on o_is_number o_stod o_stoi (variant_of v) df (bytes_of_hex text) p with
+                  | Ok df' -> go df' rest (acc ^ "ok" ^ string_of_int (List.length df'.dataset) ^ ",")
+                  | Exn e -> "HIST S=" ^ acc ^ "exn:" ^ show_exn e ^ ", STOP"
+                  | OOB s -> "HIST S=" ^ acc ^ "OOB:" ^ show_site s ^ ", STOP")
+               | ["x"; "ERR"; "ERR"] -> "HIST S=" ^ acc ^ "exn:data_format, STOP"
+               | ["x"; a; i] ->
+                 (match read_xrff_on o_is_number o_stod o_stoi uint_max_nat (variant_of v) df (dom_of a i) no_filter with
+                  | Ok (df', n) -> go df' rest (acc ^ "ok" ^ string_of_int (int_of_nat n) ^ ",")
+                  | Exn e -> "HIST S=" ^ acc ^ "exn:" ^ show_exn e ^ ", STOP"
+                  | OOB s -> "HIST S=" ^ acc ^ "OOB:" ^ show_site s ^ ", STOP")
+               | _ -> failwith "step") in
+          print_endline (go empty_df steps "")
         | ["line"; text; delim; trim; keep] ->
           let d = { delimiter = z_of_int (int_of_string delim); trim_ws = (trim = "1"); has_header = NO_HEADER;
                     quoting = (if keep = "1" then KEEP_QUOTES else REMOVE_QUOTES) } in
